@@ -12,6 +12,8 @@ def main():
     checks = sys.argv[2:]
     for patch in sorted(glob.glob(os.path.join(d, '*.patch.diff'))):
         x = os.path.basename(patch).split('.')[0]
+        if os.environ.get('SEED_ONLY') and x not in os.environ['SEED_ONLY'].split(','):
+            continue
         demo = os.path.join(d, x + '.demo.py')
         wt = tempfile.mkdtemp(prefix='seedwt-', dir='/var/tmp'); os.rmdir(wt)
         sh('git -C /repo worktree add -q %s HEAD' % wt)
